@@ -41,52 +41,67 @@ func ruleReaderAllOrNothing(c *Ctx, rule string) {
 		}
 		var bad, und []string
 		nret := 0
-		instrsOf(fn, func(in ssa.Instruction) {
-			ret, ok := in.(*ssa.Return)
-			if !ok || len(ret.Results) != 1 {
-				return
-			}
-			nret++
-			n++
-			v := ret.Results[0]
-			if k, ok := v.(*ssa.Const); ok && k.Value != nil && k.Value.Kind() == constant.String && constant.StringVal(k.Value) == "" {
-				return
-			}
-			cv, ok := v.(*ssa.Convert)
-			if !ok {
-				und = append(und, c.pos(ret.Pos())+" returns "+exprStr(v))
-				return
-			}
-			switch src := cv.X.(type) {
-			case *ssa.MakeSlice:
-				if src.Len == ssa.Value(lengthP) {
+		var analyse func(fn *ssa.Function, lengthP *ssa.Parameter, depth int)
+		analyse = func(fn *ssa.Function, lengthP *ssa.Parameter, depth int) {
+			instrsOf(fn, func(in ssa.Instruction) {
+				ret, ok := in.(*ssa.Return)
+				if !ok || len(ret.Results) != 1 {
 					return
 				}
-				if phi, ok := src.Len.(*ssa.Phi); ok {
-					hasParam, other := false, ""
-					for _, e := range phi.Edges {
-						if e == ssa.Value(lengthP) {
-							hasParam = true
-						} else {
-							other = exprStr(e)
+				v := ret.Results[0]
+				// the result of a helper of the package that is handed the length (readExactly(length, start, ...)): its returns count
+				if call, ok := v.(*ssa.Call); ok && depth < 2 {
+					if sc := call.Call.StaticCallee(); sc != nil && sc.Pkg == fn.Pkg && len(sc.Blocks) > 0 {
+						for i, a := range call.Call.Args {
+							if a == ssa.Value(lengthP) && i < len(sc.Params) {
+								analyse(sc, sc.Params[i], depth+1)
+								return
+							}
 						}
 					}
-					if hasParam && other != "" {
-						bad = append(bad, c.pos(ret.Pos())+" returns a buffer that is sometimes "+other+" bytes long instead of the "+lengthP.Name()+" bytes asked for")
-						return
-					}
 				}
-				und = append(und, c.pos(ret.Pos())+" converts a buffer of "+exprStr(src.Len)+" bytes")
-			case *ssa.Slice:
-				if src.High != nil || src.Low != nil {
-					bad = append(bad, c.pos(ret.Pos())+" returns a part of the buffer ("+exprStr(src)+")")
+				nret++
+				n++
+				if k, ok := v.(*ssa.Const); ok && k.Value != nil && k.Value.Kind() == constant.String && constant.StringVal(k.Value) == "" {
 					return
 				}
-				und = append(und, c.pos(ret.Pos())+" returns "+exprStr(v))
-			default:
-				und = append(und, c.pos(ret.Pos())+" returns "+exprStr(v))
-			}
-		})
+				cv, ok := v.(*ssa.Convert)
+				if !ok {
+					und = append(und, c.pos(ret.Pos())+" returns "+exprStr(v))
+					return
+				}
+				switch src := cv.X.(type) {
+				case *ssa.MakeSlice:
+					if src.Len == ssa.Value(lengthP) {
+						return
+					}
+					if phi, ok := src.Len.(*ssa.Phi); ok {
+						hasParam, other := false, ""
+						for _, e := range phi.Edges {
+							if e == ssa.Value(lengthP) {
+								hasParam = true
+							} else {
+								other = exprStr(e)
+							}
+						}
+						if hasParam && other != "" {
+							bad = append(bad, c.pos(ret.Pos())+" returns a buffer that is sometimes "+other+" bytes long instead of the "+lengthP.Name()+" bytes asked for")
+							return
+						}
+					}
+					und = append(und, c.pos(ret.Pos())+" converts a buffer of "+exprStr(src.Len)+" bytes")
+				case *ssa.Slice:
+					if src.High != nil || src.Low != nil {
+						bad = append(bad, c.pos(ret.Pos())+" returns a part of the buffer ("+exprStr(src)+")")
+						return
+					}
+					und = append(und, c.pos(ret.Pos())+" returns "+exprStr(v))
+				default:
+					und = append(und, c.pos(ret.Pos())+" returns "+exprStr(v))
+				}
+			})
+		}
+		analyse(fn, lengthP, 0)
 		switch {
 		case len(bad) > 0:
 			ob.Bad(strings.Join(bad, "; ") + ": a short, non-empty read differs from the literal it is compared with, so a negated literal (`not 'ab'`) and a `not in` list succeed on the last bytes of the input and consume them")
@@ -213,28 +228,33 @@ func ruleRangeKeepsOrder(c *Ctx, rule string) {
 		return
 	}
 	ob.Pos = c.pos(fn.Pos())
-	got := map[string][]ssa.Value{}
+	var rets []*ssa.Return
 	instrsOf(fn, func(in ssa.Instruction) {
-		st, ok := in.(*ssa.Store)
-		if !ok {
-			return
-		}
-		if fa, ok := st.Addr.(*ssa.FieldAddr); ok {
-			got[fieldName(deref(fa.X.Type()), fa.Field)] = append(got[fieldName(deref(fa.X.Type()), fa.Field)], st.Val)
+		if ret, ok := in.(*ssa.Return); ok {
+			rets = append(rets, ret)
 		}
 	})
-	okS := len(got["Start"]) == 1 && got["Start"][0] == ssa.Value(fn.Params[0])
-	okE := len(got["End"]) == 1 && got["End"][0] == ssa.Value(fn.Params[1])
-	if okS && okE {
+	var s []string
+	good := len(rets) > 0
+	for _, ret := range rets {
+		if len(ret.Results) != 1 {
+			good = false
+			continue
+		}
+		a, b, ok := rangeParts(ret.Results[0], 0)
+		if !ok {
+			ob.Und("the returned value " + exprStr(ret.Results[0]) + " is not a Range made in a way this rule can read")
+			return
+		}
+		if a != ssa.Value(fn.Params[0]) || b != ssa.Value(fn.Params[1]) {
+			good = false
+			s = append(s, "Start <- "+exprStr(a)+", End <- "+exprStr(b))
+		}
+	}
+	if good {
 		ob.OKnt("Start <- " + fn.Params[0].Name() + ", End <- " + fn.Params[1].Name() + ", unconditionally")
 	} else {
-		var s []string
-		for _, f := range []string{"Start", "End"} {
-			for _, v := range got[f] {
-				s = append(s, f+" <- "+exprStr(v))
-			}
-		}
-		ob.Bad("the bounds are not stored as given (" + strings.Join(s, ", ") + "): a match that ends left of its start column (it spans a line break) gets its columns swapped")
+		ob.Bad("the bounds are not stored as given (" + strings.Join(s, "; ") + "): a match that ends left of its start column (it spans a line break) gets its columns swapped")
 	}
 }
 
@@ -425,32 +445,42 @@ func ruleTokenListEndsAtEOF(c *Ctx, rule string) {
 		ob.Und("constant EOF not found")
 		return
 	}
-	w := &World{Fn: fn, Seed: func(v ssa.Value) (constant.Value, bool) {
-		// the kind of the token just produced
-		if u, ok := v.(*ssa.UnOp); ok && u.Op == token.MUL {
-			if fa, ok := u.X.(*ssa.FieldAddr); ok && types.Identical(u.Type(), ttT) && fieldName(deref(fa.X.Type()), fa.Field) == "TokenType" {
-				return eof, true
+	// the analysis begins right behind the call that produced the token: can that call be reached again?
+	next := c.Method("ast", "Lexer", "getNextToken")
+	var calls []*ssa.Call
+	instrsOf(fn, func(in ssa.Instruction) {
+		if call, ok := in.(*ssa.Call); ok && next != nil && call.Call.StaticCallee() == next && innermostLoop(fn, call.Block()) != nil {
+			calls = append(calls, call)
+		}
+	})
+	if len(calls) == 0 {
+		ob.Und("getTokens does not call getNextToken in a loop")
+		return
+	}
+	var cyc []string
+	for _, call := range calls {
+		idx := 0
+		for i, x := range call.Block().Instrs {
+			if x == ssa.Instruction(call) {
+				idx = i
 			}
 		}
-		return nil, false
-	}, Interp: func(f *ssa.Function) bool { return f.Pkg == fn.Pkg && pureFunc(f, 0) }}
-	w.Run()
-	rem := sccs(fn, func(a, b *ssa.BasicBlock) bool {
-		return w.Reach[a] && w.Reach[b] && w.Edge[[2]*ssa.BasicBlock{a, b}]
-	})
-	var cyc []string
-	for _, comp := range rem {
-		for _, b := range comp {
-			for _, in := range b.Instrs {
-				if in.Pos().IsValid() {
-					cyc = append(cyc, c.pos(in.Pos()))
-					break
+		w := &World{Fn: fn, StartBlock: call.Block(), StartIndex: idx + 1, Seed: func(v ssa.Value) (constant.Value, bool) {
+			// the kind of the token just produced
+			if u, ok := v.(*ssa.UnOp); ok && u.Op == token.MUL {
+				if fa, ok := u.X.(*ssa.FieldAddr); ok && types.Identical(u.Type(), ttT) && fieldName(deref(fa.X.Type()), fa.Field) == "TokenType" {
+					return eof, true
 				}
 			}
+			return nil, false
+		}, Interp: func(f *ssa.Function) bool { return f.Pkg == fn.Pkg && pureFunc(f, 0) }}
+		w.Run()
+		if w.Reentered {
+			cyc = append(cyc, c.pos(call.Pos()))
 		}
 	}
 	if len(cyc) == 0 {
-		ob.OKnt("with the kind of the token just read fixed to EOF no cycle of the loop stays feasible")
+		ob.OKnt("with the kind of the token just read fixed to EOF the call that reads the next token cannot be reached again")
 	} else {
 		sort.Strings(cyc)
 		ob.Bad("with the kind of the token just read fixed to EOF the loop can still go round (" + strings.Join(uniq(cyc), ", ") + "): an EOF token can be followed by further tokens, and the parser, which takes EOF for the end of the list, never gets past it")
@@ -705,6 +735,18 @@ func ruleNoFileBeforeCompile(c *Ctx, rule string) {
 			sc := call.Call.StaticCallee()
 			if isCompile(sc) {
 				compiles = append(compiles, t)
+			} else if sc == nil && !call.Call.IsInvoke() {
+				// compile := libvore.Compile; ...; compile(text): a call through a function value whose every target compiles
+				cs := c.calleesOf(call)
+				all := len(cs) > 0
+				for _, callee := range cs {
+					if !isCompile(callee) {
+						all = false
+					}
+				}
+				if all {
+					compiles = append(compiles, t)
+				}
 			}
 			if sc != nil && sc.Pkg != nil && sc.Pkg.Pkg.Path() == "os" && (sc.Name() == "OpenFile" || sc.Name() == "Create") {
 				opens = append(opens, t)
@@ -1117,4 +1159,81 @@ func ruleBlockCommentMarkerRestarts(c *Ctx, rule string) {
 		}
 	}
 	r.Floor(rule, "recognition states of the block comment's end marker", n, 2)
+}
+
+// ---------------------------------------------------------------------------------------------
+// C08.R14: the compile pipeline divides by nothing that can be zero.
+//
+// An integer division or remainder whose divisor is zero panics. Between the source text and the program (packages ast, bytecode
+// and the entry points of libvore) every integer `/` and `%` must have a divisor that is a non-zero constant, or stand behind a
+// test of that divisor against zero on every path. Today the pipeline does not divide at all; a constant folder or an
+// alignment computation that is added later has to come with its guard.
+func ruleNoUnguardedDivision(c *Ctx, rule string) {
+	r := c.R
+	nfn, ndiv := 0, 0
+	for _, pkg := range []string{"ast", "bytecode", "libvore", "ds", "algo"} {
+		for _, fn := range c.SrcFuncs(pkg) {
+			nfn++
+			instrsOf(fn, func(in ssa.Instruction) {
+				b, ok := in.(*ssa.BinOp)
+				if !ok || (b.Op != token.QUO && b.Op != token.REM) {
+					return
+				}
+				bt, ok := b.Type().Underlying().(*types.Basic)
+				if !ok || bt.Info()&types.IsInteger == 0 {
+					return
+				}
+				ndiv++
+				ob := r.Ob(rule, fmt.Sprintf("%s: divisor of %s is not zero", fnName(fn), exprStr(b)), c.pos(b.Pos()))
+				if k, ok := constInt(b.Y); ok {
+					if k != 0 {
+						ob.OKnt("constant divisor")
+					} else {
+						ob.Bad("division by the constant zero")
+					}
+					return
+				}
+				d := exprStr(b.Y)
+				for _, l := range domConds(fn, b.Block()) {
+					cmp, ok := l.Cond.(*ssa.BinOp)
+					if !ok {
+						continue
+					}
+					x, y, op := cmp.X, cmp.Y, cmp.Op
+					if k, ok := constInt(x); ok && k == 0 {
+						x, y = y, x
+						switch op {
+						case token.LSS:
+							op = token.GTR
+						case token.GTR:
+							op = token.LSS
+						case token.LEQ:
+							op = token.GEQ
+						case token.GEQ:
+							op = token.LEQ
+						}
+					}
+					if k, ok := constInt(y); !ok || k != 0 || exprStr(x) != d {
+						continue
+					}
+					// the literal as it holds on the way to the division
+					nonzero := false
+					switch op {
+					case token.NEQ, token.GTR, token.LSS:
+						nonzero = l.Pol
+					case token.EQL:
+						nonzero = !l.Pol
+					}
+					if nonzero {
+						ob.OKnt("behind the test " + l.String())
+						return
+					}
+				}
+				ob.Bad("the divisor " + d + " comes from the program text (or is computed) and nothing on the way tests it against zero: a zero makes Compile panic with `integer divide by zero` instead of returning an error")
+			})
+		}
+	}
+	ob := r.Ob(rule, "integer divisions between source text and program", "")
+	ob.OK(fmt.Sprintf("%d function(s) of ast, bytecode, ds, algo and libvore examined, %d integer division(s)", nfn, ndiv))
+	r.Floor(rule, "functions examined for integer division", nfn, 150)
 }
